@@ -1,5 +1,7 @@
 import Hive.Proofs.OMapSeq
 import Hive.Proofs.OMapPtr
+import Hive.Proofs.OMapConc
+import Hive.Proofs.OMapLin
 import Hive.Model.OMapLine
 /-!
 # C11 — OrderedMap and Set: insertion-ordered model, exact diffs, no deadlock
@@ -346,5 +348,97 @@ theorem C11_codec_concrete :
   · intro x hx rest; subst hx; rfl
 
 example : decode decU16 decVoid [] (encode encU16 encVoid (newSet [3, 1, 2])) = (newSet [3, 1, 2], some 10) := by decide
+
+/-! ## concurrency: every method returns -/
+open Hive.Conc
+
+/-- **No combination of Set methods can deadlock.**  Any number of goroutines, each running an
+arbitrary well-formed lock script (`applyMutex` before `OrderedMap.mutex`, no re-entrant acquisition,
+`Lock()` not interleaved with anything else, data accesses under `mutex`): in every configuration
+reachable under the permissive `RWMutex` semantics (a reader may or may not get in while a writer is
+only pending), as long as some goroutine has not finished some goroutine can move under the *strict*
+semantics (a pending writer blocks new readers, the behaviour that makes a re-entrant `RLock`
+fatal).  Hence no reachable configuration is a deadlock. -/
+theorem C11_deadlock_free (scripts : List (List Act)) (hwf : ∀ s ∈ scripts, WF .none .none s)
+    (c : Cfg Locks Th) (hr : Reach lockSysP (Locks.init, scripts.map Th.start) c) :
+    ¬ Deadlock lockSys threadDone c := by
+  rintro ⟨hstuck, t, ht, hnd⟩
+  obtain ⟨u, hu, hstep⟩ := progress (linv_reach hwf hr) ⟨t, ht, hnd⟩
+  exact hstep (hstuck u hu)
+
+/-- The scripts of all `ds.Set` methods (after the fix), for every argument size and every outcome
+of their data-dependent branches, are well formed — so goroutines that call any sequence of
+`Add`/`Delete`/`AddAll`/`DeleteAll`/`Apply`/`Compute`/`Replace`/`Clear`/readers never deadlock, under
+the strict semantics as well as under the permissive one. -/
+theorem C11_deadlock_free_methods (threads : List (List Call)) (c : Cfg Locks Th)
+    (hr : Reach lockSys (Locks.init, (threads.map (fun cs => cs.flatMap methodScript)).map Th.start) c) :
+    ¬ Deadlock lockSys threadDone c := by
+  apply C11_deadlock_free _ _ c (reach_strict_permissive hr)
+  intro s hs
+  obtain ⟨cs, _, rfl⟩ := List.mem_map.1 hs
+  exact wf_methods cs
+
+example : WF .none .none (methodScript (.deleteAll [true, false, true]) ++ methodScript (.apply 2 [true]) ++
+    methodScript (.replace 2 3)) := by decide
+
+/-- **The defect that was fixed.**  `DeleteAll` as it was (the callback calls `s.Delete`, which takes
+`applyMutex.RLock` again): goroutine 0 takes the read lock, goroutine 1 (`Apply`) announces its
+`Lock()`, and now neither can move — a reachable deadlock of two goroutines; the old script is not
+well formed. -/
+theorem C11_old_deleteall_deadlock_witness :
+    let c0 : Cfg Locks Th := (Locks.init, [Th.start (deleteAllOld [true]), Th.start (methodScript (.apply 1 []))])
+    let c := runSched lockSys c0 [(0, 0), (1, 0)]
+    Reach lockSys c0 c ∧ Deadlock lockSys threadDone c ∧ ¬ WF .none .none (deleteAllOld [true]) := by
+  refine ⟨runSched_reach _ _ _, ?_, by decide⟩
+  unfold Deadlock Stuck threadDone
+  decide
+
+/-! ## concurrency: Apply/Compute/Replace are atomic w.r.t. each other -/
+
+/-- **Mutual exclusion on `applyMutex`.**  In every reachable configuration of any pool of well-formed
+goroutines at most one holds `applyMutex` for writing, and while one does nobody holds it for reading
+(the same for `OrderedMap.mutex`).  `Apply`/`Compute`/`Replace` perform *all* their writes while
+holding it for writing, `Add`/`Delete`/`AddAll`/`DeleteAll` all theirs while holding it for reading:
+no write of another mutator can fall between two writes of an `Apply`/`Compute`/`Replace`. -/
+theorem C11_apply_atomic (scripts : List (List Act)) (hwf : ∀ s ∈ scripts, WF .none .none s)
+    (c : Cfg Locks Th) (hr : Reach lockSysP (Locks.init, scripts.map Th.start) c) :
+    (∀ l, cnt l .w c.2 ≤ 1 ∧ (cnt l .w c.2 = 1 → cnt l .r c.2 = 0)) ∧
+    (∀ call : Call, call.isMutator = true →
+      guardedBy (if call.isAtomic then .w else .r) .none (methodScript call) = true) :=
+  ⟨fun l => exclusion (linv_reach hwf hr) l, guarded_methodScript⟩
+
+example : guardedBy .w .none (methodScript (.apply 2 [true, false])) = true ∧
+    guardedBy .r .none (methodScript (.deleteAll [true])) = true ∧
+    guardedBy .r .none (methodScript (.apply 1 [])) = false := by decide
+
+/-! ## concurrency: single-element operations are linearizable -/
+
+/-- **Linearizability of `Add`/`Delete`/`Has`/`Clear`.**  Any number of goroutines, each executing an
+arbitrary sequence of these calls at the granularity lock – dictionary lookup – write – unlock: in
+every reachable configuration the linearization log (one entry per call, appended by a step of that
+very call, hence between its invocation and its response) replays on the sequential specification to
+exactly the current contents with exactly the logged results; every result already returned to a
+caller, and every result a call past its linearization point is going to return, is the logged one;
+and at most one goroutine is inside a write section of `OrderedMap.mutex`. -/
+theorem C11_single_linearizable (s0 : ASet) (hz : ∀ p ∈ s0, p.2 = 0) (progs : List (List SOp))
+    (c : Cfg OSh OTh) (hr : Reach opSys ({ m := RW.free, set := s0, log := [] }, progs.map OTh.start) c) :
+    replay s0 c.1.log = some c.1.set ∧
+    (∀ t ∈ c.2, ∀ x ∈ t.rets, x ∈ c.1.log) ∧
+    (∀ t ∈ c.2, ∀ x, pendingRet t = some x → x ∈ c.1.log) ∧
+    c.2.countP (fun t => holdsW t.pc) ≤ 1 := by
+  have h := oinv_reach hz hr
+  refine ⟨h.lin, h.rets, h.pend, ?_⟩
+  rw [← h.excl]; split <;> omega
+
+example : ∀ p ∈ newSet [1, 2, 3], p.2 = 0 := by decide
+
+/-- **The checker the driver runs on recorded histories is sound**: if it accepts, there is a
+linearization — a permutation of the completed calls that the sequential specification executes with
+exactly the recorded results and that respects the real-time order. -/
+theorem C11_lincheck_sound (init : ASet) (cs : List HCall) (h : linearizable init cs = true) :
+    ∃ order, LinWitness init cs order := linearizable_sound init cs h
+
+example : linearizable (newSet [1]) [⟨.add 1, .bool false, 0, 3⟩, ⟨.del 1, .bool true, 1, 2⟩, ⟨.has 1, .bool false, 4, 5⟩] = true
+    ∧ linearizable (newSet []) [⟨.has 1, .bool true, 0, 1⟩, ⟨.add 1, .bool true, 2, 3⟩] = false := by decide
 
 end Hive.OMap
